@@ -27,6 +27,13 @@ def configs(t):
         cfg(3, 3, 0, so='CORE', core=['mm'], cost=5),
         cfg(2, 4, 1, rules=True, F=1, faults=['crash'], cost=6),
         cfg(3, 3, 0, late=[2], warm=6, cost=5),
+        # the Master is lost during a DISTRIBUTION that lasts (slow start) and that a newcomer has joined (CHECKED)
+        cfg(3, 3, 0, late=[2], rules=True, slow_start=True, F=1, faults=['crash'], crashable=[1], warm=4, prejoin=2, cost=9),
+        # STRICT + RESYNC: a slave is lost (and comes back) during a DISTRIBUTION that lasts
+        cfg(3, 3, 0, so='STRICT', strategy='RESYNC', rules=True, slow_start=True, F=1, faults=['crash', 'restart'],
+            crashable=[0], warm=4, cost=9),
+        # slow exchanges: whatever is late eventually completes, then everybody is back in OPERATION
+        cfg(2, 4, 0, faults=['hang', 'lag'], late=[1], warm=6, cost=6),
     ]
     if t == 'quick':
         return q
